@@ -6,6 +6,7 @@ import NucsModel.Propagators.Element
 import NucsModel.Propagators.Lex
 import NucsModel.Propagators.Circuit
 import NucsModel.Propagators.Alldifferent
+import NucsModel.Propagators.AlldifferentChecked
 import NucsModel.Propagators.Gcc
 /-!
   The propagator registry: names (taken from the `compute_domains_*` function names of the live
@@ -37,7 +38,8 @@ def runAlg (a : Alg) (ps : List Int) (B : Box) : Res :=
   | .affineEq => .ok (affineEq ps B)
   | .affineGeq => .ok (affineGeq ps B)
   | .affineLeq => .ok (affineLeq ps B)
-  | .alldifferent => alldifferent ps B
+  -- the ported algorithm, its answer validated by the proved Hall-interval checker (AlldifferentChecked.lean)
+  | .alldifferent => alldifferentC ps B
   | .countEq => .ok (countEq ps B)
   | .dummy => .ok (.cons, B)
   | .elementIv => .ok (elementIv ps B)
